@@ -71,6 +71,9 @@ void fsv_harness(void)
      harness/lemma_slope.c (proved for ALL finite a, b and finite d > 0 by its own query in the same run) */
   fsv_f64 sl[N * D];
   for (int i = 0; i < N; i++) for (int k = 0; k < (int)cnt[i]; k++) {
+#ifdef ONLY_NODE
+    if (i != ONLY_NODE) continue;
+#endif
     fsv_f64 a = in_e[i], b = in_e[nb[i * D + k]];
     fsv_f64 s = (a - b) / dist[i * D + k];
     FSV_ASSUME(!(a <= b && s > 0.0) && !(a > b && s < 0.0));
